@@ -2,13 +2,13 @@ module verifharness
 
 go 1.25.0
 
-require connectrpc.com/vanguard v0.0.0
-
 require (
-	connectrpc.com/connect v1.19.1 // indirect
-	google.golang.org/genproto/googleapis/api v0.0.0-20260223185530-2f722ef697dc // indirect
-	google.golang.org/genproto/googleapis/rpc v0.0.0-20260223185530-2f722ef697dc // indirect
-	google.golang.org/protobuf v1.36.11 // indirect
+	connectrpc.com/connect v1.19.1
+	connectrpc.com/vanguard v0.0.0
+	google.golang.org/genproto/googleapis/rpc v0.0.0-20260223185530-2f722ef697dc
+	google.golang.org/protobuf v1.36.11
 )
+
+require google.golang.org/genproto/googleapis/api v0.0.0-20260223185530-2f722ef697dc // indirect
 
 replace connectrpc.com/vanguard => /repo
